@@ -10,6 +10,7 @@ from .common import HELD, VIOLATED, INCONCLUSIVE
 from .gen_prog import INTS, INTS_S, INTS_U
 
 PROP = "C07"
+C08_RULES = ("whole_copy", "write_target", "address_of")     # judged by C08
 PRIMS = INTS + ["bool", "char8"]
 
 
@@ -88,6 +89,17 @@ def edits():
                         wrap_main(["var r: %s = f();" % a]), {333}))
             out.append(("elem:%s:%s" % (a, b), wrap_main([
                 "var b: %s = %s;" % (b, lit_for(b)), "var arr: [2]%s = [%s, b];" % (a, lit_for(a))]), {504, 500, 551}))
+    # argument count, including the empty argument list, in expression and statement position
+    for nparams in (1, 2, 3):
+        params = ", ".join("p%d: i32" % k for k in range(nparams))
+        for nargs in range(0, nparams + 2):
+            if nargs == nparams:
+                continue
+            args = ", ".join("1" for _ in range(nargs))
+            code = 510 if nargs < nparams else 511
+            out.append(("argc:stmt:%d:%d" % (nparams, nargs), wrap_main(["f(%s);" % args], pre="fn f(%s)\n{\n}\n" % params), {code}))
+            out.append(("argc:expr:%d:%d" % (nparams, nargs), wrap_main(["var r: i32 = g(%s);" % args],
+                                                                       pre="fn g(%s) -> i32\n{\n\treturn: 1\n}\n" % params), {code}))
     for t in PRIMS:
         out.append(("argc:few:%s" % t, wrap_main(["f(%s);" % lit_for(t)], pre="fn f(x: %s, y: %s)\n{\n}\n" % (t, t)), {510}))
         out.append(("argc:many:%s" % t, wrap_main(["f(%s, %s);" % (lit_for(t), lit_for(t))], pre="fn f(x: %s)\n{\n}\n" % t), {511}))
@@ -162,8 +174,9 @@ def run_case(case):
     for kk, v in stats["recorded"].items():
         cov["typemon_recorded:" + kk] = v
     cov["typemon_nodes"] = sum(stats["checked"].values())
-    if r["typemon"]:
-        rep = r["typemon"][0]
+    reports = [x for x in r["typemon"] if x["rule"] not in C08_RULES]
+    if reports:
+        rep = reports[0]
         sig = "accepted program breaks type rule %s: %s" % (rep["rule"], strip_names(rep["detail"]))
         if rep["rule"] == "member_initialiser":
             # one defect (initialisers of structure literals are never compared with the member types), many type pairs
